@@ -707,7 +707,9 @@ class Message:
         except ValueError as e:
             raise error.MalformedUrlError from e
 
-        if parsed.fragment:
+        if "#" in uri:
+            # (not parsed.fragment: that is as empty for "coap://host/path#",
+            # which has a fragment identifier, as it is without one)
             raise error.MalformedUrlError(
                 "Fragment identifiers can not be set on a request URI"
             )
